@@ -67,6 +67,8 @@ impl TrueStrengthIndexInstance {
 		r.length == (2u8, 3u8),
 		exists|src: ValueType, lo: Action, hi: Action, nz: ValueType, zero: ValueType| src@ == src_val(candle, old(self).cfg.source)
 			&& #[trigger] tsi_ind_step(old(self), src, final(self), r.vals()[0], r.vals()[1], r.sigs()[0], r.sigs()[1], r.sigs()[2], lo, hi, nz, zero),
+		// C12: documented range of the main value
+		-1real <= r.vals()[0]@ <= 1real,
 //@replace let s1 = self.cross_under.next(&(tsi, -self.cfg.zone)) - self.cross_above.next(&(tsi, self.cfg.zone)); ==> let nz__ = -self.cfg.zone; let lo__ = self.cross_under.next(&(tsi, nz__)); let hi__ = self.cross_above.next(&(tsi, self.cfg.zone)); let s1 = lo__ - hi__;
 //@hint result
 	proof { assert(tsi_ind_step(old(self), src, self, r.vals()[0], r.vals()[1], r.sigs()[0], r.sigs()[1], r.sigs()[2], lo__, hi__, nz__, mk(0real))); }
@@ -120,6 +122,8 @@ impl<M: MovingAverageConstructor> SMIErgodicIndicatorInstance<M> {
 		r.length == (3u8, 1u8),
 		exists|src: ValueType, c: Action| src@ == src_val(candle, old(self).cfg.source)
 			&& #[trigger] smi_step(old(self), src, final(self), r.vals()[0], r.vals()[1], r.vals()[2]@, r.sigs()[0], c),
+		// C12: documented range of the main value
+		-1real <= r.vals()[0]@ <= 1real,
 //@replace let cross = self.cross.next(&(tsi, sig)).analog(); ==> let c__ = self.cross.next(&(tsi, sig)); let cross = c__.analog();
 //@hint before let sig
 	proof { self.ma.input_always_ok(&tsi); }
